@@ -117,7 +117,7 @@ class FakeBleClient:
 
 
 class BleRig:
-    def __init__(self, seed=0, mtu=158, gated=False, chars=None, load=True, bkey=None, gsn=None, acc_id=None):
+    def __init__(self, seed=0, mtu=158, gated=False, chars=None, load=True, bkey=None, gsn=None, acc_id=None, ev_flags=()):
         from aiohomekit.characteristic_cache import CharacteristicCacheMemory
         from aiohomekit.controller.ble import pairing as ble_pairing
         from aiohomekit.controller.ble.controller import BleController
@@ -146,7 +146,14 @@ class BleRig:
         cache = CharacteristicCacheMemory()
         pd = self.acc.pairing_data()
         if load:
-            cache.async_create_or_update_map(pd["AccessoryPairingID"], self.acc.cn, bleacc.accessories_json(self.acc.chars.values()), bkey.hex() if bkey else None, self.acc.gsn)
+            amap = bleacc.accessories_json(self.acc.chars.values())
+            for svc in amap[0]["services"]:
+                for ch in svc["characteristics"]:
+                    if ch["iid"] in ev_flags:
+                        # the cached entity map knows (from the characteristic signature read at pairing time) that the accessory reports
+                        # changes of this one by broadcast and while disconnected: a catch-up poll reads it and tells the listeners
+                        ch["broadcast_events"] = ch["disconnected_events"] = True
+            cache.async_create_or_update_map(pd["AccessoryPairingID"], self.acc.cn, amap, bkey.hex() if bkey else None, self.acc.gsn)
         self.controller = BleController(cache)
         self.pairing = self.controller.load_pairing("alias", pd)
         from bleak.backends.device import BLEDevice
